@@ -32,11 +32,14 @@ def smRowOf (n it jd : Nat) (xip : α) : List (Hi α) :=
   else
     (List.range it).map fun _ => (n / 2, zero)
 
-/-- `updateSM` for one entry of `_offset`; `none` = the `float → uint32` conversion of the
-    C++ is undefined (negative or huge integer part, NaN). -/
+/-- `updateSM` for one entry of `_offset`.  A position whose integer part is negative, not below
+    `2^32`, or NaN (`modf = none`) counts as outside the grid: the all-zero row (code since the fix
+    "KickMap::updateSM converts only in-range source positions to an index"; before it the
+    `float → uint32` conversion was undefined there).  The result is never `none`; the `Option`
+    is kept for the callers. -/
 def smRow [NatCast α] [ModF α] (n it : Nat) (off : α) : Option (List (Hi α)) :=
   match ModF.modf (((n / 2 : Nat) : α) + off) with
-  | none => none
+  | none => some (smRowOf n it n (zero : α))
   | some (jd, xip) => some (smRowOf n it jd xip)
 
 /-- source cell addressed from destination cell `y` through table index `idx`
